@@ -720,7 +720,10 @@ def run(ctx, round_no=0):
     if p in ('C01', 'C02', 'C03'):
         res.rule = ('(query string, document) pairs: known-finding witnesses and regression corpus first, exhaustive small-scope enumeration, structured random '
                     'queries typed against a generated document; compared through the property projection (C01 multiset of (address-derived location, value); '
-                    'C02 ordered locations; C03 set of (location, path, re-query ok)); non-trivial = distinct pair with a non-empty real result')
+                    'C02 ordered locations; C03 set of (location, path, re-query ok)); documents up to 300 levels (outer levels built by the harness in code), wide unions, plain chains, '
+                    'names spelt with path punctuation, a size sweep around powers of two (arrays, objects, strings, names, unions, segments); what query() / query_only_path return is '
+                    'judged against query_with_path (nodes: C01, order: C02, paths: C03); C02 also runs a Queryable type with members in reverse name order against the model on the '
+                    'reordered document; non-trivial = distinct pair with a non-empty real result')
         eval_suite(ctx, 'witnesses+corpus', pre, res) if pre else None
         if first: eval_suite(ctx, 'small-scope', g('gen_small.py', p, seed, 6000 * S), res)
         eval_suite(ctx, 'random', g('gen_eval.py', seed, 12000 * S), res)
@@ -746,7 +749,10 @@ def run(ctx, round_no=0):
         if p == 'C10': regex_suite(ctx, 'regex-dialect', g('gen_regex.py', seed, 8000 * S), res)
     elif p in ('C06', 'C07'):
         res.rule = ('query strings: ABNF-derived sentences with random optional blanks, both quote styles, escapes, number formats; single-edit mutants; '
-                    'random token soup. Oracle Rfc.verdict (ABNF + validity rules). non-trivial = distinct string that is valid (C06) / invalid (C07)')
+                    '(token-level: leading zeros, -0, out-of-range integers, every kind of ill-typed call with both roots, invalid atoms embedded next to constant atoms, lone surrogates, control '
+                    'characters), random token soup with long multi-byte text next to syntax errors; C06: long queries (repetition at every starred position of the ABNF, up to 3 000 / 10 000 '
+                    'elements). Oracle Rfc.verdict (ABNF + validity rules); the string entry points must classify every string as parse_json_path does on seven documents. '
+                    'non-trivial = distinct string that is valid (C06) / invalid (C07)')
         parse_suite(ctx, 'corpus', corpus_lines_raw('parse.txt'), res) if first and corpus_lines_raw('parse.txt') else None
         parse_suite(ctx, 'abnf-sentences+mutants', g('gen_abnf.py', seed, 15000 * S), res)
         parse_suite(ctx, 'token-soup', g('gen_parse.py', seed, 15000 * S), res)
@@ -754,7 +760,9 @@ def run(ctx, round_no=0):
     elif p == 'C08':
         res.rule = ('all parser strings of C06/C07 plus integer extremes in every integer position, scalar/empty documents and nesting ladders, run in isolated '
                     'worker processes with overflow checks; outcome must be Ok/Err (no panic, abort, timeout); evaluation of a parsed query must be Ok; '
-                    'plus programmatically built queries (random ASTs incl. shapes the parser cannot produce, integers in the I-JSON range)')
+                    'plus programmatically built queries (random ASTs incl. shapes the parser cannot produce, integers in the I-JSON range); ladders on an UNOPTIMISED build: nesting of '
+                    'parentheses / filters / functions, 19 wide-document shapes, documents nested 1 000 - 30 000 levels (built in code, with a control query), comparisons nested in count()/value(); '
+                    'long queries; regex patterns of every shape (crashes only)')
         if first: parse_suite(ctx, 'corpus', corpus_lines_raw('parse.txt'), res)
         if first: eval_suite(ctx, 'corpus-eval', corpus_lines('eval.jsonl', p), res)
         parse_suite(ctx, 'abnf-sentences+mutants', g('gen_abnf.py', seed, 8000 * S), res)
@@ -767,7 +775,8 @@ def run(ctx, round_no=0):
         regex_suite(ctx, 'regex-patterns', g('gen_regex.py', seed, 6000 * S), res)      # patterns of every shape, valid or not: match/search must not panic
     elif p == 'C09':
         res.rule = ('(document, path, new value): Normalized Path of every kind of node (names with / ~ quotes digits blanks), one-step-off absent locations, '
-                    'non-path queries; compared: found node by address, write result, whole document after the write; spec = lens laws on locations')
+                    'non-path queries; compared: found node by address, write result, whole document after the write; spec = lens laws on locations; paths returned by queries fed back to '
+                    'reference; update sequences through all paths of one query; paths of 150 - 10 000 segments into documents built in code')
         if first and corpus_lines('ref.jsonl'): ref_suite(ctx, 'corpus', corpus_lines('ref.jsonl'), res)
         if first: eval_suite(ctx, 'kf-witnesses', kf_lines(ctx), res)
         eval_suite(ctx, 'query-paths-fed-back', g('gen_eval.py', seed, 6000 * S) + g('gen_small.py', p, seed, 3000 * S), res)
@@ -776,7 +785,8 @@ def run(ctx, round_no=0):
         if first: longref_suite(ctx, 'long-paths', longref_cases(ctx.tier), res)
     elif p == 'C12':
         res.rule = ('histories: seeded sequences of evaluations interleaving several queries and documents, each also by pre-parsed query and from N threads '
-                    'sharing one Arc; plus the three entry points compared position by position on random cases')
+                    'sharing one Arc, every evaluation compared with a fresh process; the three entry points and a parsed-once query compared position by position on random, size-sweep and '
+                    'targeted function cases; a look-up of a path that designates no node must leave the document unchanged; source obligation: no construct in /repo/src that can hold state')
         hist_suite(ctx, 'histories', g('gen_hist.py', seed, 60 * S), res)
         eval_suite(ctx, 'entry-points', g('gen_eval.py', seed, 8000 * S), res)
         if first: eval_suite(ctx, 'size-sweep', g('gen_sizes.py', seed, 513), res)
@@ -788,8 +798,9 @@ def run(ctx, round_no=0):
         group_suite(ctx, 'spellings', g('gen_targeted.py', 'c13', seed, 12000 * S), res)
     elif p == 'C15':
         res.rule = ('the same (query, document) cases through serde_json::Value and through two other Queryable types (members in a Vec, separate unsigned '
-                    'variant, lossy Debug, Default != null, no reference override; one with structural PartialEq, one with PartialEq by JSON value); '
-                    'paths and values must be equal position by position; all equal the model')
+                    'variant, lossy Debug, Default != null, no reference override; one with structural PartialEq and accessors kept apart, one with PartialEq by JSON value and second spellings '
+                    'of strings and null) and through a type that stores equal member values once (Rc); paths and values must be equal position by position; all equal the model; the first type '
+                    'is also run with every object\'s members in reverse name order and compared with the model on the reordered document')
         generic_suite(ctx, 'second-queryable', g('gen_eval.py', seed, 10000 * S), res)
         generic_suite(ctx, 'targeted-functions', g('gen_targeted.py', 'c10', seed, 3000 * S) + g('gen_targeted.py', 'c14', seed, 3000 * S) + g('gen_targeted.py', 'c04', seed, 3000 * S), res)
         generic_suite(ctx, 'singular-queries', g('gen_targeted.py', 'c15', seed, 2000 * S), res)
